@@ -339,6 +339,13 @@ def handle (toks : List String) : Option String :=
     match Vakt.PolicyObj.construct ctor Vakt.PolicyObj.empty with
     | .error e => pure ("ctor-raise " ++ showErr e)
     | .ok o => pure (" | ".intercalate (("ok " ++ showPObj o) :: runPObj o steps))
+  | "TAGIDX" :: ts => do
+    let (s, ts) ← pChar ts
+    let (t, ts) ← pChar ts
+    let e ← full (pStr ts)
+    match TagParser.tagIndices s t e with
+    | none => pure "unbalanced"
+    | some ix => pure ("ok " ++ " ".intercalate (ix.map (fun p => toString p.1 ++ " " ++ toString p.2)))
   | "SCAN" :: ts => do
     let (s, ts) ← pChar ts
     let (t, ts) ← pChar ts
